@@ -125,6 +125,9 @@ class GenericContextProvider(RoleProvider):
                         # set these in old_state_container, they are not copied from proposed_st below
                         old_state_container.UnbindingMdibVersion = mgr.new_mdib_version
                         old_state_container.BindingEndTime = time.time()
+                        # an association that ends is 'Dis', whatever non-associated value was proposed
+                        # (an absent ContextAssociation attribute implies 'No'): there is no way back to 'No' or 'Pre'
+                        proposed_st.ContextAssociation = pm_types.ContextAssociation.DISASSOCIATED
                     elif (
                         old_state_container.ContextAssociation != pm_types.ContextAssociation.ASSOCIATED
                         and proposed_st.ContextAssociation == pm_types.ContextAssociation.ASSOCIATED
